@@ -24,10 +24,10 @@ func runFetchChunked(ver int, o, hwm int64, set []byte, chunk int) string {
 	conn := kafka.NewConn(cli, "t", 0)
 	defer conn.Close()
 	conn.Seek(o, kafka.SeekAbsolute|kafka.SeekDontCheck)
-	d, outcome := readBatchWithin(conn, 1500*time.Millisecond)
+	d, outcome := readBatchWithin(conn, 3*time.Second)
 	off, _ := conn.Offset()
 	next := "ok"
-	conn.SetDeadline(time.Now().Add(1500 * time.Millisecond))
+	conn.SetDeadline(time.Now().Add(3 * time.Second))
 	if last, err := conn.ReadLastOffset(); err != nil {
 		next = errClass(err)
 	} else if last != 4242 {
